@@ -18,6 +18,7 @@ def gen_C01(ctx):
     out += st_tokens(ctx, ["S"], 3 if ctx.tier == "quick" else 4, TOKENS_Q, prefix="pkg:t/")
     out += st_token_sample(ctx, ctx.n(4000, 300000), shapes, TOKENS_T, "c01-tok")
     out += st_long(ctx, shapes, "c01-long", every=ctx.tier == "thorough")
+    out += st_huge(ctx)
     return out
 
 
@@ -59,6 +60,7 @@ def gen_C06(ctx):
     out += st_quals(ctx, ctx.n(4000, 300000), "c06-quals")
     out += st_cksum(ctx, ctx.n(3000, 300000), "c06-cksum")
     out += st_long(ctx, shapes, "c06-long", every=ctx.tier == "thorough") + st_long_api(ctx)
+    out += st_huge(ctx)
     out += [case("build S %s %s ck:-" % (hx("t"), hx("n")), "empty-checksum"),
             case("cksum text", "empty-checksum"), case("cksum rt;iter;algs", "empty-checksum"),
             case("build P Cargo %s ck:-;ck:ins.%s.-" % (hx("n"), hx("a")), "empty-checksum")]
@@ -74,6 +76,7 @@ def gen_C10(ctx):
     out += st_spellings(ctx, ctx.n(6000, 400000), shapes, "c10-spell", group=1)
     out += st_builder(ctx, ctx.n(9000, 500000), ["S", "P", "CB", "CO", "M"], "c10-build")
     out += [c for c in st_scalars(["name", "pypi", "pypi2"], step=1 if ctx.tier == "thorough" else 977, shapes=("P",))]
+    out += st_huge(ctx)
     return out
 
 
